@@ -62,14 +62,33 @@ DT = 0.2  # time span of one update call at unit strain rate (strain increment 0
 # time- and position-dependent commuting families L = g * M  (closed form: expm(M * int g))
 # "spinup": the flow starts from REST - the velocity gradient is exactly zero at t = 0 (the start of the first update)
 # and grows linearly afterwards, g(t) = 2 t
-TDEP = {"tdep": ("gen3d", lambda t, x: 1.0 + 0.5 * t), "xdep": ("trace", lambda t, x: 1.0 + 0.25 * x[0]), "spinup": ("gen3d", lambda t, x: 2.0 * t)}
+# "stop" / "stoprot": an INTERMITTENT flow - straining during the first half of every period of 0.26 (dimensionless
+# time), and exactly at rest ("stop") or in rigid rotation only ("stoprot": zero strain rate, non-zero vorticity) during
+# the second half; the period is incommensurate with the update span, so the strain rate vanishes and resumes INSIDE
+# update calls.  "stoprot" is axisymmetric shortening along z plus a rotation about z: the two commute.
+PERIOD = 0.26
+
+
+def _on(t):
+    return 1.0 if (t % PERIOD) < PERIOD / 2 else 0.0
+
+
+def on_time(s):
+    """int_0^s _on"""
+    whole, r = divmod(s, PERIOD)
+    return whole * PERIOD / 2 + min(r, PERIOD / 2)
+
+
+TDEP = {"tdep": ("gen3d", lambda t, x: 1.0 + 0.5 * t), "xdep": ("trace", lambda t, x: 1.0 + 0.25 * x[0]), "spinup": ("gen3d", lambda t, x: 2.0 * t),
+        "stop": ("gen3d", lambda t, x: _on(t)), "stoprot": ("axi_c", lambda t, x: _on(t))}
+TADD = {"stoprot": 0.8 * np.array([[0.0, -1, 0], [1, 0, 0], [0, 0, 0]])}   # added to g * M
 XVEL = np.array([0.7, -0.2, 0.1])  # pathline x(t) = XVEL * t for position-dependent flows
 
 
 def flow_matrix(fl, rate=1.0, t=0.0):
     if fl in TDEP:
         base, g = TDEP[fl]
-        return FLOWS[base] * rate * g(t * rate, XVEL * t * rate)
+        return FLOWS[base] * rate * g(t * rate, XVEL * t * rate) + TADD.get(fl, 0.0) * rate
     return FLOWS[fl] * rate
 
 
@@ -78,6 +97,9 @@ def flow_callables(fl, rate=1.0):
     if fl in TDEP:
         base, g = TDEP[fl]
         M = FLOWS[base] * rate
+        if fl in TADD:
+            A = TADD[fl] * rate
+            return (lambda t, x: M * g(t * rate, np.asarray(x) * 1.0) + A), (lambda t: XVEL * t * rate)
         return (lambda t, x: M * g(t * rate, np.asarray(x) * 1.0)), (lambda t: XVEL * t * rate)
     L = FLOWS[fl] * rate
     if fl.endswith("_int") and rate == 1.0:
@@ -96,11 +118,17 @@ def flow_integral(fl, t0, t1, rate=1.0):
     if fl == "spinup":
         s0, s1 = t0 * rate, t1 * rate
         return FLOWS["gen3d"] * (s1**2 - s0**2)
+    if fl in ("stop", "stoprot"):
+        s0, s1 = t0 * rate, t1 * rate
+        return FLOWS[TDEP[fl][0]] * (on_time(s1) - on_time(s0)) + TADD.get(fl, 0.0) * (s1 - s0)
     return FLOWS[fl] * rate * (t1 - t0)
 
 
 def strain_of(fl, t0, t1, rate=1.0, k=16):
     """accumulated strain int |dt| max|eig D| (midpoint rule; integrand is smooth)."""
+    if fl in ("stop", "stoprot"):      # piecewise constant: exact
+        M = FLOWS[TDEP[fl][0]]
+        return abs(on_time(t1 * rate) - on_time(t0 * rate)) * np.abs(np.linalg.eigvalsh((M + M.T) / 2)).max()
     ts = np.linspace(t0, t1, k + 1)
     tm = (ts[1:] + ts[:-1]) / 2
     tot = 0.0
